@@ -9,7 +9,8 @@ import random
 import re
 
 CHUNKS = ["", "a = 0\n", "print(a)\nb = a + 1\n", "def f(x):\n    return x\n", "x = (\n", "print(undefined_name)\n",
-          "1/0\n", "\n\n", "y = 1", "z = 1\x0c\nw = 2\n", "for q in 5:\n    pass\n"]
+          "1/0\n", "\n\n", "y = 1", "z = 1\x0c\nw = 2\n", "for q in 5:\n    pass\n",
+          "n = 'count'\nvalues = [1, 2]\nsq = [n * n for n in values]\nprint(sq)\n"]
 MARK = "##### Part %d\n"
 
 
@@ -46,10 +47,10 @@ def expected_pieces(text):
     return pieces, spans
 
 
-def check_file(chunks, independent, extra_calls):
+def check_file(chunks, independent, extra_calls, eol="\n"):
     from pedal.source.sections import separate_into_sections, next_section, stop_sections
     from pedal.source import verify
-    text = build(chunks)
+    text = build(chunks).replace("\n", eol)       # Windows line ends: the marker pattern's `.` takes the \r
     pieces, spans = expected_pieces(text)
     report = fresh(text)
     fails = []
@@ -118,11 +119,11 @@ def check_file(chunks, independent, extra_calls):
     report2 = fresh(text)
     separate_into_sections(independent=independent, report=report2)
     try:
-        report2.execute_hooks('pedal.resolvers', 'resolve')
+        resolve(report=report2)     # a report of its own, not pedal's MAIN_REPORT
         if report2.submission.main_code != text:
-            fails.append(('restore_on_resolve', 'main code after the resolve hook (prologue active) is not the original text'))
+            fails.append(('restore_on_resolve', 'main code after resolve(report=...) (prologue active) is not the original text'))
     except Exception as e:
-        fails.append(('restore_on_resolve', 'resolve hook raised %s' % type(e).__name__))
+        fails.append(('restore_on_resolve', 'resolve raised %s' % type(e).__name__))
     # TIFA issues inside an independent section carry whole-file lines
     if independent and k_total >= 1:
         from pedal.tifa import tifa_analysis
@@ -144,9 +145,24 @@ def check_file(chunks, independent, extra_calls):
                 fails.append(('tifa_raises', 'tifa_analysis raised %s' % type(e).__name__))
                 continue
             chunk_lines = chunk.count("\n") + 1
+            # the same text analysed on its own (no sections, so no shifting) names the lines inside the chunk
+            alone = fresh(chunk)
+            try:
+                tifa_analysis(report=alone)
+                want = sorted((f.label, f.location.line + off) for f in alone.feedback + alone.ignored_feedback
+                              if type(f).__module__.startswith('pedal.tifa') and getattr(f, 'location', None) is not None
+                              and getattr(f.location, 'line', None) is not None)
+                got = sorted((f.label, f.location.line) for f in (report3.feedback + report3.ignored_feedback)[n0:]
+                             if type(f).__module__.startswith('pedal.tifa') and getattr(f, 'location', None) is not None
+                             and getattr(f.location, 'line', None) is not None)
+                if got != want:
+                    fails.append(('tifa_line', 'TIFA issues of section %d at %r; the chunk analysed alone, shifted by the %d '
+                                  'lines before it, gives %r' % (k, got, off, want)))
+            except Exception as e:
+                pass
             for f in (report3.feedback + report3.ignored_feedback)[n0:]:
                 loc = getattr(f, 'location', None)
-                if loc is not None and getattr(loc, 'line', None) is not None and f.tool == 'tifa':
+                if loc is not None and getattr(loc, 'line', None) is not None and type(f).__module__.startswith('pedal.tifa'):
                     if not (off + 1 <= loc.line <= off + chunk_lines):
                         fails.append(('tifa_line', 'TIFA issue %s at line %r, the section spans lines %d-%d' % (
                             f.label, loc.line, off + 1, off + chunk_lines)))
@@ -219,6 +235,12 @@ def bounded(arg):
                 for what, detail in fails:
                     failures.append({'id': what, 'canon': what, 'detail': detail, 'file': build(chunks),
                                      'independent': independent})
+    for chunks in layouts[::3]:
+        evaluations += 1
+        distinct.add((len(chunks), 'crlf', tuple(c[:3] for c in chunks)))
+        for what, detail in check_file(chunks, True, 1, eol="\r\n"):
+            failures.append({'id': what, 'canon': what + ' (CRLF file)', 'detail': detail,
+                             'file': build(chunks).replace("\n", "\r\n"), 'independent': True})
     try:
         rfails, rn = runtime_lines()
     except Exception as e:
@@ -228,7 +250,7 @@ def bounded(arg):
     for what, detail in rfails:
         failures.append({'id': what, 'canon': what, 'detail': detail})
     return {'name': 'B-sections', 'bound': '8 run-time errors (top level under run(), student function under call()) in 4 sectioned files; %d file layouts of 0-%d marker lines over %d chunk texts (incl. empty, syntax error, '
-            'no trailing newline), independent and cumulative, 1-2 calls past the end' % (len(layouts), 2 if quick else 3, len(CHUNKS)),
+            'no trailing newline), independent and cumulative, 1-2 calls past the end; every third layout again with CRLF line ends' % (len(layouts), 2 if quick else 3, len(CHUNKS)),
             'evaluations': evaluations, 'distinct_nontrivial': len(distinct),
             'rule': 'distinct = (number of chunks, mode, calls past the end, chunk texts)', 'samples': samples,
             'failures': failures}
